@@ -25,7 +25,7 @@ add("C19", "exploration", "independent WHATWG event-stream parser fed with the b
     "Generated event dictionaries (all key subsets/orders, data over every Unicode line/paragraph separator, empty data, leading space/colon, several ASCII-compatible charsets) are "
     "written by the real code, decoded with the declared charset and parsed by an independent implementation of the WHATWG algorithm; dispatched events (type, data, lastEventId), final "
     "id/retry state and event order must equal what was yielded; pings must dispatch nothing.",
-    "Trusts the 80-line parser model; data compared modulo one trailing line terminator; ASCII-compatible charsets only.")
+    "Trusts the 80-line parser model; a final line break of the data may be dropped (never added); ASCII-compatible charsets only.")
 add("C08", "exploration", "independent backtracking reference matcher compared with the real Router at the WSGI and ASGI server boundary; convertor round-trip monitor",
     "Generated route tables (every convertor, literals with regex metacharacters, overlapping routes in random order) x paths generated from the tables (valid instances, one-edit "
     "near-misses, newline, Unicode digits, impossible dates, extra/missing segments) are dispatched through the real Router.__call__ of both interfaces with recording endpoints; the "
